@@ -360,7 +360,8 @@ def execute(record: dict, rng: Optional[random.Random]) -> Outcome:
                 chunks = (chy, chx, ns)  # the writer requires all samples of a pixel in one chunk for YXS
             else:
                 chunks = (ns if cfg["band_chunk"] == "all" else 1, chy, chx)
-            arr = da.from_array(data, chunks=chunks, name=f"pix-{cfg['uuid_seed']:032x}")
+            # the graph gets its own copy: the reference pixels must stay out of reach of the code under test
+            arr = da.from_array(data.copy(), chunks=chunks, name=f"pix-{cfg['uuid_seed']:032x}")
             if axis == "SYX":
                 attrs = {} if nodata is None else {"nodata": nodata}
                 xx = xr.DataArray(arr, dims=("band", *gbox.dimensions), coords=xr_coords(gbox), attrs=attrs)
